@@ -245,6 +245,41 @@ theorem entry_constrained {A : Csr α} (h : A.WF) (es : List (Nat × α)) (hes :
   rw [Finset.mem_Ico] at hk
   rw [Csr.getD_eq_of_lt _ (row_pos_lt h hi hk.2).1 A.cols 0, matVals_getD_constrained h es hes hi hk hl]
 
+theorem filterOffdiag_some (f : UnitF α) (A B : Csr α) (h : f.filterOffdiagRowMat A = some B) (hne : f.es ≠ []) :
+    B = { A with val := UnitF.offdiagVals A f.es } := by
+  unfold UnitF.filterOffdiagRowMat at h
+  have : f.es.isEmpty = false := by cases hh : f.es <;> simp_all
+  simp only [this, Bool.false_eq_true, if_false] at h
+  split at h
+  · simp at h
+  · simp only [Option.some.injEq] at h
+    exact h.symm
+
+theorem filterWeak_some (f : UnitF α) (A B : Csr α) (valM : Array α) (h : f.filterWeakMatrixRows A valM = some B)
+    (hne : f.es ≠ []) : B = { A with val := UnitF.weakVals A valM f.es } := by
+  unfold UnitF.filterWeakMatrixRows at h
+  have : f.es.isEmpty = false := by cases hh : f.es <;> simp_all
+  simp only [this, Bool.false_eq_true, if_false] at h
+  split at h
+  · simp at h
+  · simp only [Option.some.injEq] at h
+    exact h.symm
+
+/-- any of the three row loops at a position of a constrained row -/
+theorem rewriteRows_getD_constrained {A : Csr α} (h : A.WF) (es : List (Nat × α)) (hes : ∀ e ∈ es, e.1 < A.rows)
+    (g : Nat × α → Nat → α) {i k : Nat} (hi : i < A.rows) (hk : A.rowBegin i ≤ k ∧ k < A.rowEnd i) {e : Nat × α}
+    (hl : lastEntry es i = some e) : (rewriteRows A es g A.val).getD k 0 = g e k := by
+  rw [getD_rewriteRows h es hes g A.val hi hk (row_pos_lt h hi hk.2).2 0, hl]
+
+/-- with pairwise different row indices the last entry for a row is the entry itself -/
+theorem lastEntry_of_mem_nodup {es : List (Nat × α)} (hn : (es.map Prod.fst).Nodup) {e : Nat × α} (he : e ∈ es) :
+    lastEntry es e.1 = some e := by
+  unfold lastEntry
+  apply lastWrite_of_mem_nodup
+  · rw [List.map_map]
+    exact hn
+  · exact List.mem_map.mpr ⟨e, he, rfl⟩
+
 end Dense
 
 end FeatModel.LA.Filter
